@@ -26,7 +26,7 @@ MANIFEST = dict(cat=LEVEL, ref="DESIGN.md 3.9, 6 (C13)",
          "executions; each is run on TurDB five ways (inline x1, inline x2, execute_with_params, prepared x1, prepared x2 = cached "
          "plan; SELECT: inline, execute_with_params, prepared.query, prepared.execute) from two physical histories of the same rows "
          "and compared pairwise with the inlined run and with the model",
-    text="For every enumerated statement with 1-7 placeholders in the forms ?, $n (ordered, out of order, repeated) and :name and "
+    text="For every enumerated statement with 1-7 placeholders (INSERT also with VALUES lists of 2 and 3 tuples, the placeholders numbered across the tuples) in the forms ?, $n (ordered, out of order, repeated) and :name and "
          "every parameter value class (incl. text containing ' '' \\ -- /* ; ? $1 :a newlines and SQL), all API paths give the "
          "result, affected count, table contents and PK/UNIQUE/secondary-index lookups of the statement with the literals inlined; "
          "quick tier samples ~320 cases (half of them from both histories), thorough runs all",
